@@ -12,6 +12,7 @@ package rewriter
 
 //@ extern astutil.Unparen(e) (r)
 //@   ensures r == unparenE(e)
+//@   ensures !isnil(e) ==> !isnil(r)
 
 //@ func (check *terminationChecker) isTerminating(s) (r)
 //@   reveal ast-readonly
@@ -341,6 +342,8 @@ package rewriter
 //@ pred IsBlank(e ast.Expr) := isa(e, Ident) && !isnil(e) && as(e, Ident).Name == "_"
 //@ pred Ignored(e ast.Expr) := isnil(e) || IsBlank(e)
 //@ pred WfExpr(e ast.Expr) := isnil(e) ==> same(e, nil)      -- go/parser never produces typed-nil nodes
+//@ pred WfStmt(s ast.Stmt) := isnil(s) ==> same(s, nil)
+//@ pred IsDefine(s ast.Stmt) := isa(s, AssignStmt) && !isnil(s) && as(s, AssignStmt).Tok == token.DEFINE
 
 //@ func (r *yieldRewriter) ignoreKeyVal(k, v) (a, b)
 //@   requires WfExpr(k) && WfExpr(v)
@@ -392,15 +395,18 @@ package rewriter
 //@        && isa(unparenE(as(n, ExprStmt).X), CallExpr) && calleeOf(as(unparenE(as(n, ExprStmt).X), CallExpr)) == callee
 
 //@ func (r *rewriter) isCallStmtOf(pkg, n, callee) (call, ok)
-//@   requires isa(n, ExprStmt) ==> !isnil(n)
+//@   requires isa(n, ExprStmt) ==> !isnil(n) && !isnil(as(n, ExprStmt).X)
+//@   ensures[non-nil] ok ==> call != nil
 //@   ensures[sound] ok ==> IsCallStmtOf(n, callee) && call == as(unparenE(as(n, ExprStmt).X), CallExpr)
 //@   ensures[complete] IsCallStmtOf(n, callee) ==> ok       -- a yield statement that is not recognised is emitted as a no-op call: the value is lost
 //@ func (r *rewriter) isYieldCall(pkg, n) (call, ok)
-//@   requires isa(n, ExprStmt) ==> !isnil(n)
+//@   requires isa(n, ExprStmt) ==> !isnil(n) && !isnil(as(n, ExprStmt).X)
+//@   ensures[non-nil] ok ==> call != nil
 //@   ensures[sound] ok ==> IsCallStmtOf(n, r.yieldFunc) && call == as(unparenE(as(n, ExprStmt).X), CallExpr)
 //@   ensures[complete] IsCallStmtOf(n, r.yieldFunc) ==> ok
 //@ func (r *rewriter) isYieldFromCall(pkg, n) (call, ok)
-//@   requires isa(n, ExprStmt) ==> !isnil(n)
+//@   requires isa(n, ExprStmt) ==> !isnil(n) && !isnil(as(n, ExprStmt).X)
+//@   ensures[non-nil] ok ==> call != nil
 //@   ensures[sound] ok ==> IsCallStmtOf(n, r.yieldFromFunc) && call == as(unparenE(as(n, ExprStmt).X), CallExpr)
 //@   ensures[complete] IsCallStmtOf(n, r.yieldFromFunc) ==> ok
 
@@ -441,3 +447,125 @@ package rewriter
 //@        && isa(as(rs.Body.List[0], ExprStmt).X, CallExpr)
 //@        && (let c := as(as(rs.Body.List[0], ExprStmt).X, CallExpr) in len(c.Args) == 1 && c.Args[0] == rs.Key
 //@             && (RefersTo(c.Fun, cstAPIYield) || (isa(c.Fun, IndexExpr) && RefersTo(as(c.Fun, IndexExpr).X, cstAPIYield))))
+
+// ---------------------------------------------------------------- yield_rewrite.go, pass 2: CPS statement rewriting (C01, C11, C12)
+// Typestate of the block accumulator, "every callback body ends in a return" (EndsOK), panic-freedom.
+// AST nodes are abstract here except for the fields pass 2 itself reads; `modifies AST` havocs them.
+
+//@ pred YRCtx(r *yieldRewriter) := r.rewriter != nil && r.yieldAst != nil && YAOK(r.yieldAst) && r.yieldAst.callNormal != nil
+//@ pred AllTrivial(b *block) := forall j: Int :: 0 <= j && j < BLen(b) ==> BKind(b, j) == kindTrival
+//@ pred ATBL(b *block) := forall j: Int :: 0 <= j && j < BLen(b) - 1 ==> BKind(b, j) == kindTrival
+//@ pred Shape(b *block) := (forall j: Int :: 0 <= j && j < BLen(b) - 2 ==> BKind(b, j) == kindTrival)
+//@        && (BLen(b) >= 2 ==> BKind(b, BLen(b) - 1) == kindNormal || BKind(b, BLen(b) - 2) == kindTrival)
+//@ pred IsBranch(s ast.Stmt) := isa(s, BranchStmt)
+//@ pred EndsOK(b *block) := BLen(b) > 0 && (BKind(b, BLen(b) - 1) >= kindNormal || SpecTermAny(BStmt(b, BLen(b) - 1)) || IsBranch(BStmt(b, BLen(b) - 1)))
+//@ pred Ready(b *block) := BlockInv(b) && BChecked(b) && AllTrivial(b) && !BFrozen(b)
+//@ pred BodyKind(k int) := k == kindDelay || k == kindIf || k == kindSwitch || k == kindFor
+
+//@ func (r *yieldRewriter) isTerminating(s) (t)
+//@   trusted      -- collects the builtin-panic call sites with the external matcher, then runs the verified checker
+//@   ensures t ==> SpecTermAny(s)
+
+//@ func (r *yieldRewriter) mustNoYield(stmt) (t)
+//@   trusted      -- delegates to rewriter.containsYield (recover-based traversal, outside the subset); bounded stand-in in the thorough tier
+//@   ensures isnil(stmt) ==> t
+//@   ensures !isnil(stmt) ==> (t == !HasYield(stmt))
+
+//@ func (r *yieldRewriter) checkYieldCall(call)
+//@   trusted      -- go/types assignability check of the yielded value; diagnostic otherwise
+//@   requires call != nil
+//@   ensures len(call.Args) >= 1      -- the call type-checks against co.Yield's signature
+
+//@ func (r *yieldRewriter) generateLastNormalIfNecessary(children)
+//@   requires YRCtx(r) && children != nil && BlockInv(children)
+//@   requires BOwner(children) == kindDelay || BOwner(children) == kindFor || BOwner(children) == kindIf
+//@   ensures[inv] BlockInv(children) && BOwner(children) == old(BOwner(children))
+//@   ensures[shape] old(ATBL(children)) ==> Shape(children)
+//@   ensures[ends] EndsOK(children)
+//@   ensures[prefix] BLen(children) >= old(BLen(children)) && (forall j: Int :: 0 <= j && j < old(BLen(children)) ==> BKind(children, j) == old(BKind(children, j)) && BStmt(children, j) == old(BStmt(children, j)))
+//@   modifies BLen(children), BKLen(children), BStmt(children), BKind(children), BChecked(children), BFrozen(children)
+
+//@ func (r *yieldRewriter) combineIfNecessary(children) (res)
+//@   requires YRCtx(r) && children != nil && BlockInv(children) && ATBL(children)
+//@   ensures[same-or-fresh] res == children || (fresh(res) && BLen(res) == 0 && BOwner(res) == kindDelay && EndsOK(children))
+//@   ensures[ready] res != nil && Ready(res)
+//@   ensures[children] BlockInv(children) && ATBL(children) && BOwner(children) == old(BOwner(children))
+//@   modifies BLen(children), BKLen(children), BStmt(children), BKind(children), BChecked(children), BFrozen(children)
+
+//@ func (r *yieldRewriter) rewriteYieldCall(call, children) (following)
+//@   requires YRCtx(r) && call != nil && len(call.Args) >= 1 && children != nil && Ready(children)
+//@   ensures[following] fresh(following) && BLen(following) == 0 && BOwner(following) == kindDelay && Ready(following)
+//@   ensures[children] BlockInv(children) && ATBL(children) && EndsOK(children) && BOwner(children) == old(BOwner(children))
+//@   modifies BLen(children), BKLen(children), BStmt(children), BKind(children), BChecked(children), BFrozen(children)
+
+//@ func (r *yieldRewriter) rewriteBlockStmt(body, kind) (res)
+//@   reveal wf-ast
+//@   requires YRCtx(r) && body != nil && StmtList(body.List) && BodyKind(kind)
+//@   ensures[block] fresh(res) && BlockInv(res) && BOwner(res) == kind && Shape(res)
+//@   ensures[ends] kind == kindDelay ==> EndsOK(res)
+//@   ensures[for-body] kind == kindFor ==> EndsOK(res) || AllTrivial(res)
+//@   modifies AST
+
+//@ func (r *yieldRewriter) rewriteStmts(stmts, idx, children)
+//@   reveal wf-ast
+//@   requires YRCtx(r) && StmtList(stmts) && 0 <= idx && children != nil && Ready(children) && BodyKind(BOwner(children))
+//@   ensures[inv] BlockInv(children) && BOwner(children) == old(BOwner(children)) && Shape(children)
+//@   ensures[ends] BOwner(children) == kindDelay ==> EndsOK(children)
+//@   ensures[for-body] BOwner(children) == kindFor ==> EndsOK(children) || AllTrivial(children)
+//@   modifies BLen(children), BKLen(children), BStmt(children), BKind(children), BChecked(children), BFrozen(children), AST
+
+//@ func (r *yieldRewriter) rewriteStmt(stmt, isLast, children) (res)
+//@   reveal wf-ast
+//@   requires YRCtx(r) && ProperStmt(stmt) && children != nil && Ready(children) && BodyKind(BOwner(children))
+//@   requires isa(stmt, BlockStmt) ==> StmtList(as(stmt, BlockStmt).List)
+//@   ensures[children] BlockInv(children) && BOwner(children) == old(BOwner(children)) && Shape(children)
+//@   ensures[res] res != nil ==> (res == children || fresh(res)) && BlockInv(res) && ATBL(res) && BodyKind(BOwner(res))
+//@        && (res != children ==> BOwner(res) == kindDelay && EndsOK(children))
+//@   ensures[last] res == nil ==> (BOwner(children) == kindDelay ==> EndsOK(children))
+//@        && (BOwner(children) == kindFor ==> EndsOK(children) || AllTrivial(children))
+//@   ensures[res-last] res != nil && isLast && res == children && BOwner(children) == kindFor ==> EndsOK(children) || AllTrivial(children)
+//@   modifies BLen(children), BKLen(children), BStmt(children), BKind(children), BChecked(children), BFrozen(children), AST
+
+//@ func (r *yieldRewriter) lastSwitchInLoop(isLast, children) (res)
+//@   requires YRCtx(r) && (children != nil ==> BlockInv(children) && ATBL(children))
+//@   ensures[same] res == children || res == nil
+//@   ensures[nil] res == nil && children != nil ==> EndsOK(children) && BOwner(children) == kindFor
+//@   ensures[inv] children != nil ==> BlockInv(children) && BOwner(children) == old(BOwner(children)) && (res != nil ==> ATBL(children)) && Shape(children)
+//@   ensures[untouched] res != nil ==> BLen(children) == old(BLen(children)) && BFrozen(children) == old(BFrozen(children)) && BChecked(children) == old(BChecked(children))
+//@        && (forall j: Int :: 0 <= j && j < BLen(children) ==> BKind(children, j) == old(BKind(children, j)) && BStmt(children, j) == old(BStmt(children, j)))
+//@   ensures[decision] res != nil && isLast && children != nil && BOwner(children) == kindFor && BLen(children) > 0 ==> BKind(children, BLen(children) - 1) != kindSwitch
+//@   modifies BLen(children), BKLen(children), BStmt(children), BKind(children), BChecked(children), BFrozen(children)
+
+//@ func (r *yieldRewriter) rewriteIfStmt(stmt, children)
+//@   reveal wf-ast
+//@   requires YRCtx(r) && stmt != nil && children != nil && Ready(children) && BodyKind(BOwner(children))
+//@   ensures[pushed] BlockInv(children) && ATBL(children) && BLen(children) == old(BLen(children)) + 1 && !BFrozen(children)
+//@        && (BKind(children, BLen(children) - 1) == kindTrival || BKind(children, BLen(children) - 1) == kindIf)
+//@        && BOwner(children) == old(BOwner(children))
+//@   modifies BLen(children), BKLen(children), BStmt(children), BKind(children), BChecked(children), AST
+
+//@ func (r *yieldRewriter) rewriteSwitchStmt(stmt, init, x, body, pos, children) (res)
+//@   reveal wf-ast
+//@   requires YRCtx(r) && !isnil(stmt) && init != nil && pos != nil && body != nil && CaseList(body.List)
+//@   requires children != nil && Ready(children) && BodyKind(BOwner(children))
+//@   requires (isnil(x) ==> same(x, nil)) && (same(x, nil) || implements(x, Expr) || implements(x, Stmt))
+//@   requires WfStmt(deref(init)) && (!isnil(deref(init)) ==> ProperStmt(deref(init)) && !isa(deref(init), BlockStmt)) && !IsDefine(deref(init))
+//@   ensures[children] BlockInv(children) && BOwner(children) == old(BOwner(children)) && Shape(children)
+//@   ensures[res] res != nil && (res == children || fresh(res)) && BlockInv(res) && ATBL(res) && BodyKind(BOwner(res))
+//@        && (res != children ==> BOwner(res) == kindDelay && EndsOK(children))
+//@        && !BFrozen(res) && BLen(res) > 0 && (BKind(res, BLen(res) - 1) == kindTrival || BKind(res, BLen(res) - 1) == kindSwitch)
+//@   modifies BLen(children), BKLen(children), BStmt(children), BKind(children), BChecked(children), BFrozen(children), AST
+
+//@ func (r *yieldRewriter) rewriteForStmt(stmt, children) (res)
+//@   reveal wf-ast
+//@   requires YRCtx(r) && stmt != nil && children != nil && Ready(children) && BodyKind(BOwner(children))
+//@   requires WfStmt(stmt.Init) && WfStmt(stmt.Post) && WfExpr(stmt.Cond)
+//@   requires (!isnil(stmt.Init) ==> ProperStmt(stmt.Init) && !isa(stmt.Init, BlockStmt)) && (!isnil(stmt.Post) ==> ProperStmt(stmt.Post) && !isa(stmt.Post, BlockStmt))
+//@   requires !IsDefine(stmt.Init) && !IsDefine(stmt.Post)
+//@   assume-obligation call[assert].requires at `instanceof[` because A-yield-stmt: a simple statement that contains a yield is a call statement of co.Yield, so rewriting a yielding post statement leaves a return statement last
+//@   assume-obligation call[block.lastStmt].requires because A-yield-stmt (same)
+//@   ensures[children] BlockInv(children) && BOwner(children) == old(BOwner(children)) && Shape(children)
+//@   ensures[res] res != nil && (res == children || fresh(res)) && BlockInv(res) && ATBL(res) && BodyKind(BOwner(res))
+//@        && (res != children ==> BOwner(res) == kindDelay && EndsOK(children))
+//@   ensures[closed-or-trivial] EndsOK(res) || AllTrivial(res)
+//@   modifies BLen(children), BKLen(children), BStmt(children), BKind(children), BChecked(children), BFrozen(children), AST
